@@ -132,6 +132,7 @@ def main(tier, replay=None):
     chk.assumptions += ["the Probe element type (harness/hc.h) stands for 'an element type with its own constructor, "
                         "assignment and destructor that owns heap memory'",
                         "Boxes are never aliased (assigning or copying a Box does not transfer ownership: documented contract)"]
+    runner.run_pinned(chk, {"h_map": hmap, "h_seq": hseq})
     nm = cm.report()
     ns = cs.report()
     return chk.finish()
